@@ -8,7 +8,7 @@ Unknown external callees fail closed.
 import json
 import os
 import re
-from terms import FA, show, mk, ty_of, is_const, const_val, T, subterms
+from terms import FA, show, mk, ty_of, is_const, const_val, T, subterms, set_ty
 from facts import callee_of, int_range
 from intervals import Intervals, trange
 from algebra import lin
@@ -60,6 +60,46 @@ BV_RE = re.compile(r"<df::bit_value::(U|I|SM)(\d+) as df::bit_value::BitValue>::
 IO_FNS = {"df::parser::Parser::parse": 2, "df::assembler::Assembler::put": 3, "df::parser::Parser::consume_bits": 2,
           "df::parser::Parser::data": None, "df::parser::Parser::offset": None, "df::assembler::Assembler::offset": None}
 MAX_PAYLOAD = 1023
+
+
+REFOP = re.compile(r"<([ui](?:8|16|32|64|128|size)) as core::ops::(Add|Sub|Mul)<&\1>>::(add|sub|mul)")
+
+
+def closure_item_assumption(prog, f):
+    """A closure whose only use is `(c1..=c2 | c1..c2).filter(closure)` is called with a reference to an item of that range:
+    *arg2 lies in [c1, c2] (resp. [c1, c2-1])."""
+    parent = prog.fn(f.path.rsplit("::{closure#", 1)[0])
+    if parent is None:
+        return None
+    fa = FA(parent, prog)
+    rng = None
+    n = 0
+    for b, t in parent.calls():
+        args = fa.call_args(b)
+        for i, a in enumerate(args):
+            if a.op == "closure" and a.args[0] == f.path:
+                n += 1
+                if callee_of(t) == "core::iter::Iterator::filter" and i == 1:
+                    x = args[0]
+                    if x.op == "call" and x.args[0] == "core::ops::RangeInclusive::<Idx>::new" and all(is_const(y) for y in x.args[1]):
+                        rng = (const_val(x.args[1][0]), const_val(x.args[1][1]))
+                    elif x.op == "agg" and x.args[0] == "core::ops::Range" and all(is_const(y) for y in x.args[3]):
+                        rng = (const_val(x.args[3][0]), const_val(x.args[3][1]) - 1)
+    if n != 1 or rng is None:
+        return None
+    fid = id(f)
+
+    def a(t):
+        # memval(*arg2) / memval(*memval(*arg2)) (|id| and |&id| patterns)
+        x = t
+        depth = 0
+        while x.op in ("memval", "mem") and depth < 4:
+            x = x.args[0]
+            depth += 1
+        if depth >= 2 and x.op == "arg" and x.args[0] == fid and x.args[1] == 2 and ty_of(t) is not None and ty_of(t).get("k") in ("uint", "int"):
+            return rng
+        return None
+    return a
 
 
 def io_assumptions(f):
@@ -132,7 +172,10 @@ class Inventory:
         for p in sorted(cl):
             f = prog.fns[p]
             res.fn(f)
-            self.fn(f, assume_for(f) if assume_for else None)
+            a = assume_for(f) if assume_for else None
+            if a is None and "{closure#" in p:
+                a = closure_item_assumption(prog, f)
+            self.fn(f, a)
         return cl
 
     def discharge(self, rule, f, desc, ok, detail, line, how):
@@ -247,6 +290,24 @@ class Inventory:
                     args = fa.call_args(b)
                     self.discharge("P-generic", f, "ValueType %s %s" % ("<<" if c.endswith("shl") else ">>", show(args[1], names)), False,
                                    "shift of the generic carrier: amount must stay below the carrier width", t["line"], "rule")
+                    continue
+                m_ = REFOP.fullmatch(c)
+                if m_:
+                    # `a - &b` etc. on integers: same overflow check as the plain operator
+                    args = fa.call_args(b)
+                    ct = fa.call_term(b)
+                    rng = libmodel.int_range(ty_of(ct)) if ty_of(ct) is not None else None
+                    ci = iv.interval(ct, f.term(b)["target"] if f.term(b)["target"] is not None else b)
+                    x = iv.interval(args[0], b)
+                    yv = mk("memval", args[1].args[0]) if args[1].op == "ref" else mk("memval", mk("mem", args[1]))
+                    y = iv.interval(set_ty(yv, ty_of(args[0])), b) if yv is not None else None
+                    ok = False
+                    detail = "operands %s, %s" % (_ivs(x), _ivs(y))
+                    if x is not None and y is not None and rng is not None:
+                        op = m_.group(2)
+                        lo, hi = (x[0] + y[0], x[1] + y[1]) if op == "Add" else ((x[0] - y[1], x[1] - y[0]) if op == "Sub" else (min(x[0] * y[0], x[1] * y[1]), max(x[0] * y[0], x[1] * y[1])))
+                        ok = rng[0] <= lo and hi <= rng[1]
+                    self.discharge("P-assert", f, "Overflow:%s(%s, *%s) [operator on a reference]" % (m_.group(2), show(args[0], names), show(args[1], names)), ok, detail, t["line"], "interval")
                     continue
                 if c in libmodel.PANICS:
                     self.stats["call"] += 1
